@@ -90,6 +90,14 @@ pub fn range_contains<R: std::ops::RangeBounds<u64>>(r: &R, x: &u64) -> (b: bool
     ensures b == range_has(r, *x),
 { r.contains(x) }
 
+/// R22: `it.size_hint()`.  Assumed (std: "the implementation must return correct bounds"): lower <= number of remaining items <= upper.
+#[verifier::external_body]
+pub fn size_hint<T: Iterator>(it: &T) -> (r: (usize, Option<usize>))
+    ensures
+        r.0 <= it.remaining().len(),
+        r.1 matches Some(u) ==> it.remaining().len() <= u,
+{ it.size_hint() }
+
 /// R24: `(a..b).take_while(p).map(f)`.  Assumed (std contracts of Range<usize>, Iterator::take_while, Iterator::map): the result is a finite
 /// well-behaved iterator yielding f(a), f(a+1), .., f(k-1) where k is the first index in a..b that p rejects (k = b if there is none);
 /// p is only called on a..=k and f only on indices p accepted.  Closures are `Fn` (the repo's do not mutate their captures).
